@@ -308,7 +308,20 @@ mod imp {
                         Event::End(_) => ("End", None),
                         Event::Text(t) => ("Text", Some(t.unescape().map(|s| s.into_owned()).map_err(|e| e.to_string()))),
                         Event::Comment(_) => ("Comment", None),
-                        Event::CData(_) => ("CData", None),
+                        Event::CData(cd) => {
+                            // the three escape() flavours turn the section into a text event; unescaping
+                            // that must give what decoding the section gives
+                            let want = dec.decode(&payload).map(|s| s.into_owned()).ok();
+                            for (which, t) in [("escape", cd.clone().escape()), ("partial_escape", cd.clone().partial_escape()), ("minimal_escape", cd.clone().minimal_escape())] {
+                                let back = t.map_err(|e| e.to_string()).and_then(|t| t.unescape().map(|s| s.into_owned()).map_err(|e| e.to_string()));
+                                if let Some(w) = &want {
+                                    if back.as_ref().ok() != Some(w) {
+                                        return Verdict::fail(format!("BytesCData::{}() then unescape() gives {:?}, decoding the section gives {:?} | {} bytes {:?}", which, back, w, enc.name(), B::show(&bytes)));
+                                    }
+                                }
+                            }
+                            ("CData", None)
+                        }
                         Event::PI(_) => ("PI", None),
                         Event::Decl(_) => ("Decl", None),
                         Event::DocType(_) => ("DocType", None),
